@@ -426,6 +426,19 @@ func CreateDB(dbName string) error {
 }
 
 func (rs *RelationService) CreateTable(r *Relation, tableName string) error {
+	if err := rs.createTable(r, tableName); err != nil {
+		return err
+	}
+	// the shared lock is released by now: flushPages takes the exclusive one
+	return rs.fs.flushPages()
+}
+
+// createTable adds the table to the catalog while holding the shared lock, so
+// that the background flush never sees (or writes) a half-made table.
+func (rs *RelationService) createTable(r *Relation, tableName string) error {
+	rs.fs.lockShared()
+	defer rs.fs.unlockShared()
+
 	_, err := rs.getRelationFileOffset(tableName)
 	if err != ErrTableNotExist {
 		return ErrTableAlreadyExist
@@ -438,11 +451,7 @@ func (rs *RelationService) CreateTable(r *Relation, tableName string) error {
 	if err := rs.insertPageTable(pg, tableName); err != nil {
 		return err
 	}
-	if err := rs.insertSchemaTable(r, tableName); err != nil {
-		return err
-	}
-
-	return rs.fs.flushPages()
+	return rs.insertSchemaTable(r, tableName)
 }
 
 func (rs *RelationService) createPage() (*btreeNode, error) {
